@@ -153,6 +153,14 @@ def run(rep, tier, seed, keep=False):
                     for tail in ['', 'x', '\\']:
                         add(qch + e + pl + tail + qch)
                         add('f(' + qch + 'a' + e + pl + qch + ', 1)')
+        # unterminated literals with long tails (a string-token rule that backtracks would not come back)
+        for qch in "'\"`":
+            for L in (10, 30, 60, 200, 2000):
+                add(qch + 'a' * L)
+                add(qch + 'ab ' * (L // 3) + '\\')
+                add('f(1, ' + qch + 'x y ' * (L // 4) + ')')
+                add(qch + ('\\' + qch) * (L // 2))
+                add(qch + 'a\\' * (L // 2) + 'b')
         # very long numerals and identifiers
         for L in [1, 10, 100, 1000, 4299, 4300, 4301, 5000, 6000]:
             add('1' * L)
